@@ -206,6 +206,7 @@ def _do(ctx, w, prod, callname, flavour):
     m = w.models[prod]
     before = m.running
     what = "%s.%s" % (prod, callname)
+    ctx.op(what, "running" if before else "stopped", flavour)
     exc = None
     if prod == "sync":
         s = w.mnet.sync
